@@ -44,7 +44,7 @@ class Ctx:
     # ------------------------------------------------------------------ budgets
     # thorough tier: per-property multiplier so that each thorough check runs for several minutes on 16 cores
     THOROUGH_SCALE = {'C02': 5, 'C03': 3, 'C04': 10, 'C05': 10, 'C06': 6, 'C07': 8, 'C09': 5, 'C10': 2, 'C11': 10, 'C12': 10,
-                      'C13': 5, 'C14': 10, 'C15': 10, 'C17': 4}
+                      'C13': 5, 'C14': 10, 'C15': 10, 'C17': 8}
 
     def budget(self, quick, thorough):
         n = quick if self.tier == 'quick' else int(thorough * self.THOROUGH_SCALE.get(self.pid, 1))
